@@ -883,6 +883,26 @@ func (c *HostClient) acquireConn(dialTimeout time.Duration) (cc *clientConn, inP
 func (c *HostClient) queueForIdle(w *wantConn) {
 	c.connsLock.Lock()
 	defer c.connsLock.Unlock()
+	// acquireConn dropped the lock after it found neither an idle connection nor a free slot.
+	// A connection released or closed since then found no waiter to hand over to, so look again
+	// before queueing: otherwise w waits out MaxConnWaitTimeout next to an idle connection and
+	// its entry is never dequeued.
+	if n := len(c.conns); n > 0 {
+		cc := c.conns[n-1]
+		c.conns[n-1] = nil
+		c.conns = c.conns[:n-1]
+		w.tryDeliver(cc, nil)
+		return
+	}
+	maxConns := c.MaxConns
+	if maxConns <= 0 {
+		maxConns = consts.DefaultMaxConnsPerHost
+	}
+	if c.connsCount < maxConns {
+		c.connsCount++
+		go c.dialConnFor(w)
+		return
+	}
 	if c.connsWait == nil {
 		c.connsWait = &wantConnQueue{}
 	}
